@@ -295,6 +295,11 @@ def render_strf(fmt, f, off, t_us):
                                        abs(off) // 60, abs(off) % 60))
         elif d == "s":
             out.append("%d" % (t_us // 10 ** 6))
+        elif d == "f":
+            # microseconds, as the standard library's strftime prints them
+            if not 1000 <= f["y"] <= 9999:
+                return None
+            out.append("%06d" % f["us"])
         elif d in "aAbBy":
             # directives only the standard library's strftime knows (the
             # operator falls back to it): C locale names, gregorian dates in
